@@ -5,7 +5,7 @@ import traceback
 import z3
 
 from . import theory as T
-from . import types as TY
+from . import tys as TY
 from .sv import (SV, NONE, MObj, Frame, Closure, OutOfSubset, StaleContract, SymRaise, ReturnEx, PathEnd, BreakEx,
                  ContinueEx, mk_int, mk_bool)
 from .interp import Interp, Path, Obligation, as_int_term
